@@ -125,7 +125,7 @@ VRestore(st, ev) ==
        IN IF ~NoEntropy(ev) THEN Bad("C11: from_serialized() drew entropy", "", st2)
           ELSE IF e.t = "inst"
                THEN IF o.t # "inst" THEN Bad("C08/C10: from_serialized() refused state in the released format", "inst", st2)
-                    ELSE IF HexToBytes(ev.out.outbound) # e.v.out
+                    ELSE IF "outbound" \in DOMAIN ev.out /\ HexToBytes(ev.out.outbound) # e.v.out
                          THEN Bad("C09: restored instance has a different outbound message", BytesToHex(e.v.out), st2)
                     ELSE Good(st2)
                ELSE IF Matches(o, e) THEN Good(st2)
@@ -133,6 +133,13 @@ VRestore(st, ev) ==
                     ELSE IF e = Err("WrongSideSerialized") /\ o = Err("WrongGroupError") /\ "hashed_params" \in DOMAIN bb
                             /\ bb.hashed_params # Fingerprint(ev.cls, ParamTable[ev.ps]) THEN Good(st2)
                     ELSE Bad("C09: from_serialized() under the wrong role or parameters", ShowSet({e}), st2)
+
+(* the outbound_message attribute of a restored instance, read by the tracer  *)
+(* only after the instance's finish() has returned (or at the end of the trace) *)
+VPeek(st, ev) ==
+  IF ev.inst \notin DOMAIN st THEN Good(st)
+  ELSE IF ev.out.t = "val" /\ HexToBytes(ev.out.v) = st[ev.inst].out THEN Good(st)
+  ELSE Bad("C09: restored instance has a different outbound message", BytesToHex(st[ev.inst].out), st)
 
 (* the live shared singletons of a parameter set, dumped by the harness      *)
 VConsts(st, ev) ==
@@ -155,6 +162,7 @@ EventVerdict(st, ev) ==
     [] ev.op = "serialize" -> VSerialize(st, ev)
     [] ev.op = "restore"   -> VRestore(st, ev)
     [] ev.op = "consts"    -> VConsts(st, ev)
+    [] ev.op = "peek"      -> VPeek(st, ev)
     [] OTHER               -> LET r == PureVerdict(ev) IN [ok |-> r.ok, why |-> r.why, exp |-> r.exp, st |-> st]
 (* ---- C02 on implementation traces: whenever finish() returns a key, compare  *)
 (* it with the keys the other instances of the trace returned                  *)
